@@ -9,7 +9,9 @@ from .values import *
 from spec import tables as reft
 
 
-def resolve_table(prog, origin):
+def resolve_table(prog, origin, fields=None):
+    """the layout table the reference calls `origin`; when the (private) name is gone, the one table of that class / module
+    that has every field the reference names -- a table is what it contains, not what it is called"""
     modname, rest = origin.split(":")
     mod = prog.module(modname)
     parts = rest.split(".")
@@ -17,11 +19,15 @@ def resolve_table(prog, origin):
         cls = mod.env.get(parts[0])
         if not isinstance(cls, ClassVal):
             raise AnalysisError("anchor-missing", origin)
-        t = cls.attrs.get(parts[1])
-        line = prog.class_attr_lines(cls).get(parts[1])
+        space, name, lines = cls.attrs, parts[1], prog.class_attr_lines(cls)
     else:
-        t = mod.env.get(parts[0])
-        line = prog.module_attr_lines(mod).get(parts[0])
+        space, name, lines = mod.env, parts[0], prog.module_attr_lines(mod)
+    t = space.get(name)
+    line = lines.get(name)
+    if not isinstance(t, dict) and fields:
+        cands = [k for k, v in space.items() if isinstance(v, dict) and v and set(fields) <= set(v)]
+        if len(cands) == 1:
+            t, line = space[cands[0]], lines.get(cands[0])
     if not isinstance(t, dict):
         raise AnalysisError("anchor-missing", origin)
     return t, prog.rel(mod), line
@@ -45,7 +51,7 @@ def check_tables(prog, run, uses, rule_prefix="table"):
     for origin, ref in reft.TABLES.items():
         if ref["use"] not in uses:
             continue
-        table, file, line = resolve_table(prog, origin)
+        table, file, line = resolve_table(prog, origin, list(ref["fields"]) if ref["fields"] else None)
         done[origin] = table
         if ref["fields"] is None:
             run.unconstrained.append(origin)
